@@ -232,15 +232,18 @@ func c12A(e *core.Env) {
 		simrt.Event("request %d read: err=%v bytes=%d", i, r.rerr, len(r.got))
 	}
 	var opTimes []time.Duration
+	doStart, doEnd := map[int]time.Duration{}, map[int]time.Duration{}
 	for i, r := range reqs {
 		if r.ThinkMS > 0 {
 			simrt.Sleep(time.Duration(r.ThinkMS) * time.Millisecond)
 		}
 		t0 := time.Now()
 		curReq = i
+		doStart[i] = e.Sched.Elapsed()
 		req := &reghttp.Req{Host: "up.test", Method: "GET", Repository: "r", Path: "blobs/" + dig, ExpectLen: int64(len(blobData))}
 		simrt.Event("request %d Do (limit=%d delayInit=%v delayMax=%v)", i, limit, delayInit, effMax)
 		r.resp, r.err = hc.Do(context.Background(), req)
+		doEnd[i] = e.Sched.Elapsed()
 		simrt.Event("request %d Do returned %v", i, r.err)
 		if i > 0 && !reqs[i-1].done {
 			finish(i - 1)
@@ -319,6 +322,50 @@ func c12A(e *core.Env) {
 			okCount[x.Host]++
 		}
 		last[x.Host] = x
+	}
+	// mirror order (ii): a host that asked the client to stay away (429 + Retry-After) and whose window is still
+	// open when a logical request starts is visited after every host that has never failed so far
+	{
+		type win struct{ at, until time.Duration }
+		open := map[string]win{}
+		firstFail := map[string]time.Duration{}
+		visited := map[int]map[string]bool{}
+		for _, x := range net.Log {
+			i := reqOf[x.Seq]
+			if visited[i] == nil {
+				visited[i] = map[string]bool{}
+			}
+			if !x.Redirect && !visited[i][x.Host] {
+				// (only visits made by the Do call itself: a later resume of a broken body sorts the hosts afresh)
+				if w, ok := open[x.Host]; ok && w.at < doStart[i] && doStart[i] < w.until-time.Millisecond && x.Sent <= doEnd[i] {
+					for _, y := range hosts {
+						if y.Name == x.Host || visited[i][y.Name] {
+							continue
+						}
+						if ff, failed := firstFail[y.Name]; !failed || ff > doStart[i] {
+							e.Violation("mirror-order", "backing-off-host-before-idle-host", "logical request %d started at %v, inside the Retry-After window of %s (until %v), and visited it before %s, which had never failed", i, doStart[i], x.Host, w.until, y.Name)
+							break
+						}
+					}
+					e.Probe("backing-off-order-checked")
+				}
+				visited[i][x.Host] = true
+			}
+			k := kindOf[x.Seq]
+			if k == simnet.F429RetryAfter {
+				sec := 0
+				fmt.Sscanf(x.RespHdr.Get("Retry-After"), "%d", &sec)
+				until := x.RespAt + time.Duration(sec)*time.Second
+				if w, ok := open[x.Host]; !ok || until > w.until {
+					open[x.Host] = win{at: x.RespAt, until: until}
+				}
+			}
+			if k != 0 || !(x.Status >= 200 && x.Status < 300 || x.Status == 404) {
+				if _, ok := firstFail[x.Host]; !ok {
+					firstFail[x.Host] = x.Sent
+				}
+			}
+		}
 	}
 	// termination within a budget derived from the configuration (liveness; also under forever-repeating servers)
 	budget := time.Duration(limit+2)*(effMax+121*time.Second) + time.Minute
